@@ -322,5 +322,74 @@ theorem balgrp_display_only (st : Settings) (sel : BalRow → Bool) (g : GroupBy
   obtain ⟨members, hmem, hfi, hall', _, _, hrows, hdel⟩ := hfig gr hgr
   exact ⟨members, hmem, hfi, hall', hrows, hdel⟩
 
+/-! ### non-vacuity and the journal on which "rounded exact total" and "sum of rounded amounts" differ -/
+
+def mkPost (a : String) (x : Dec) : Posting := ⟨[a], "", x, x, false, "", none⟩
+def mkTxn (ns : Int) (posts : List Posting) : Txn := ⟨⟨⟨ns, 0⟩, none, none, none, none, none, none⟩, posts⟩
+
+/-- **Amounts round up, the running total rounds down.**  Two transactions, each ` a 0.006 / b -0.006`. -/
+def runningUp : List Txn :=
+  [mkTxn 0 [mkPost "a" (dec false 6 3), mkPost "b" (dec true 6 3)],
+   mkTxn 1 [mkPost "a" (dec false 6 3), mkPost "b" (dec true 6 3)]]
+
+def regRow (a : String) (x tot : Dec) : RegRow := ⟨mkPost a x, tot, "", none⟩
+
+/-- the engine: exact running totals 0.006, 0.012 and -0.006, -0.012 -/
+theorem runningUp_register : register selAll runningUp = .ok [
+    ⟨mkTxn 0 [mkPost "a" (dec false 6 3), mkPost "b" (dec true 6 3)],
+      [regRow "a" (dec false 6 3) (dec false 6 3), regRow "b" (dec true 6 3) (dec true 6 3)]⟩,
+    ⟨mkTxn 1 [mkPost "a" (dec false 6 3), mkPost "b" (dec true 6 3)],
+      [regRow "a" (dec false 6 3) (dec false 12 3), regRow "b" (dec true 6 3) (dec true 12 3)]⟩] := by
+  simp [register, registerEngine, plainStream, registerLoop, registerTxn, accPostings, accPosting, noConv,
+    List.mergeSort, List.MergeSort.Internal.splitInTwo, itemLe, rowLe, Posting.acctnKey, keyLe, acctName,
+    runningUp, mkTxn, mkPost, regRow, dec, RegMap.set, RegMap.empty, RItem.key, Outcome.ofOption, Dec.add,
+    Dec.isZero, sgn, max96]
+
+example : C03.TxnsWF runningUp := by
+  intro t ht p hp
+  simp [runningUp] at ht
+  rcases ht with rfl | rfl <;> simp [mkTxn] at hp <;> rcases hp with rfl | rfl <;> simp [mkPost, dec]
+
+/-- at scale 2..2 every amount is shown as ±0.01 and **every running total as ±0.01**: the second total is the exact
+    0.012 rounded (0.01), not the sum 0.02 of the two shown amounts -/
+theorem runningUp_report : (registerReport ⟨2, 2⟩ selAll runningUp).map
+      (fun es => es.map (fun e => e.rows.map (fun r => (r.amount.toList, r.total.toList))))
+    = .ok [[("0.01".toList, "0.01".toList), ("-0.01".toList, "-0.01".toList)],
+           [("0.01".toList, "0.01".toList), ("-0.01".toList, "-0.01".toList)]] := by
+  unfold registerReport
+  rw [runningUp_register]
+  simp only [Outcome.map, registerTxt, printedEntries, regRow, mkPost]
+  decide
+
+/-- the shown total is not the sum of the shown amounts … -/
+example : valueOfShown "0.01".toList + valueOfShown "0.01".toList ≠ valueOfShown "0.01".toList := by decide
+/-- … it is the exact prefix sum 0.006 + 0.006 rounded once (`register_display_only`) -/
+example : valueOfShown (shownChars ⟨2, 2⟩ (dec false 12 3)) = roundHalfAway 26 (6 * 10 ^ 25 + 6 * 10 ^ 25) := by decide
+example : roundHalfAway 26 (6 * 10 ^ 25) + roundHalfAway 26 (6 * 10 ^ 25) ≠ roundHalfAway 26 (6 * 10 ^ 25 + 6 * 10 ^ 25) := by
+  decide
+/-- the other way round: amounts 0.004 round down, their exact total 0.008 rounds up -/
+example : roundHalfAway 26 (4 * 10 ^ 25) + roundHalfAway 26 (4 * 10 ^ 25) = 0 ∧
+    roundHalfAway 26 (4 * 10 ^ 25 + 4 * 10 ^ 25) = 10 ^ 26 := by decide
+
+/-- each figure has its *own* precision: at scale 2..4 the amount 0.5 (stored scale 1) is padded to `0.50` while the
+    running total 0.125 + 0.5 = 0.625 (stored scale 3) is shown with 3 decimals -/
+example : regRowTxt ⟨2, 4⟩ (regRow "a" (dec false 5 1) (dec false 625 3))
+    = ⟨["a"], "", "0.50", "0.625"⟩ := by decide
+/-- a running total that returns to zero keeps the larger stored scale and no sign: `0.00`; a negative total that
+    rounds to zero loses its sign -/
+example : Dec.add (dec false 4 3) (dec true 4 3) = some (dec false 0 3) := by decide
+example : regRowTxt ⟨2, 2⟩ (regRow "a" (dec true 4 3) (dec false 0 3)) = ⟨["a"], "", "0.00", "0.00"⟩ := by decide
+example : regRowTxt ⟨2, 2⟩ (regRow "a" (dec true 3 3) (dec true 4 3)) = ⟨["a"], "", "0.00", "0.00"⟩ := by decide
+/-- the column text of a wide non-negative figure starts with a blank, its token is the figure -/
+example : (regRowCols ⟨28, 28⟩ (regRow "a" (dec false 1 0) (dec true 1 0))).1 = (' ' :: "1.".toList) ++ List.replicate 28 '0'
+    ∧ ((regRowCols ⟨28, 28⟩ (regRow "a" (dec false 1 0) (dec true 1 0))).2).head? = some '-' := by decide
+/-- an entry without a listed row is not written -/
+example : registerTxt ⟨2, 2⟩ [⟨mkTxn 0 [], []⟩, ⟨mkTxn 1 [], [regRow "a" (dec false 1 0) (dec false 1 0)]⟩]
+    = [⟨mkTxn 1 [], [⟨["a"], "", "1.00", "1.00"⟩]⟩] := by decide
+
+/-- a balance group is printed like a balance report: `partsUp` as a group -/
+example : balgrpTxt ⟨2, 2⟩ [⟨"2024-01", partsUp⟩]
+    = [⟨"2024-01", ⟨[⟨["p", "c1"], "", "0.01", "0.01"⟩, ⟨["p", "c2"], "", "0.01", "0.01"⟩], [("", "0.01")]⟩⟩] := by decide
+
 end C17
 end Tackler
